@@ -3,39 +3,30 @@ import MythVerif.Proofs.WsQueueTsoTac
 namespace MythVerif.WsqTso
 open MythVerif.Wsq
 
-set_option maxHeartbeats 4000000 in
 theorem o_pus (s s' : St) (e off) : Inv s → s.opc = .pus e off → stepO s = some s' → Inv s' := by
   intro h heq hs
   have hv := rc1_viewTop _ _ _ _ _ _ _ (h.pus e off heq)
-  cases h
   simp only [stepO, heq, hv] at hs
   simp at hs; subst hs
-  simp only [heq, ownerLocked, carry, resetting, ownerFlight] at *
-  tso_finish
+  tso_fastO h heq [pus]
 
-set_option maxHeartbeats 4000000 in
 theorem o_puv (s s' : St) (e off) : Inv s → s.opc = .puv e off → stepO s = some s' → Inv s' := by
   intro h heq hs
   have hv := rc2_viewTop _ _ _ _ _ _ _ (h.puv e off heq)
   have hv2 := rc2_viewBase _ _ _ _ _ _ _ (h.puv e off heq)
-  cases h
   simp only [stepO, heq, hv, hv2] at hs
   simp at hs; subst hs
-  simp only [heq, ownerLocked, carry, resetting, ownerFlight] at *
-  tso_finish
+  tso_fastO h heq [puv]
 
-set_option maxHeartbeats 4000000 in
 theorem o_pux (s s' : St) (e t) : Inv s → s.opc = .pux e t → stepO s = some s' → Inv s' := by
   intro h heq hs
   have hcfg := h.cfg
-  cases h
   simp only [stepO, heq, releaseO, hcfg, code_unlockFence, if_true] at hs
   split at hs
   · rename_i hb
     simp at hb
     simp at hs; subst hs
-    simp only [heq, ownerLocked, carry, resetting, ownerFlight] at *
-    tso_finish
+    tso_fastO h heq [pux]
   · simp at hs
 
 end MythVerif.WsqTso
